@@ -610,6 +610,15 @@ def c10(ctx):
     fscases += fs_coded_cases(ctx, 8 if not ctx.thorough else 60)
     note_fs(res, fscases)
     run_fs_cases(ctx, res, fscases)
+    # "whatever source regions": two sources whose lengths add up to more than usize::MAX (zero-sized elements; known finding D17)
+    for prof in PROFILES:
+        z = [g[0] if g else '' for g in lib.run_impl('span', [('zst_sum', ['x'])], prof)[0]]
+        res.evaluations += 1
+        if z != ['1', '3', '2']:
+            res.failures.append({'kind': 'oracle', 'entry': 'probe/zst_sum', 'profile': prof, 'rust_type': 'OwnedRegion<()>',
+                                 'history': ['push &[(); usize::MAX/2+1]', 'merge_regions([&r, &r]) then push 3 units', 'reserve_regions([&r, &r]) then push 2 units'],
+                                 'observed': z, 'what': f'merge_regions / reserve_regions over sources totalling more than usize::MAX elements: {z} (62 = panic)',
+                                 'known': known_by_class('zst-length-sum-overflow', ctx.prop) if (prof == 'checked' and z == ['1', '[62]', '[62]']) else None})
     return res
 
 # ------------------------------------------------------------------ C11
@@ -2129,6 +2138,22 @@ def c07(ctx):
     def oracle(e, ops, obs, mo=None):
         return ref_oracle(e, ops, obs, [clause_for(e)], mo)
     run_regions(ctx, res, cases, oracle, 'full')
+    # two limits of the dictionary scheme that the property text, read literally, does not allow for (known findings)
+    for prof in PROFILES:
+        pobs = lib.run_impl('span', [('no_free_tag', ['x']), ('nested_codec', ['x'])], prof)
+        res.evaluations += 2
+        a = [g[0] if g else '' for g in pobs[0]]; b = [g[0] if g else '' for g in pobs[1]]
+        if a != ['1', '1']:
+            res.failures.append({'kind': 'oracle', 'entry': 'probe/no_free_tag', 'profile': prof, 'rust_type': 'CodecRegion<DictionaryCodec>',
+                                 'history': ['push [b,1] for b in 0..=255', 'push "hello" x10000', 'merge_regions', 'push "hello"'], 'observed': a,
+                                 'what': f'the dominating string (97% of the pushes) is stored in {a[0] if a else "?"} bytes, read-back exact: {a[1:] == ["1"]}',
+                                 'known': known_by_class('no-free-tag', ctx.prop) if a == ['5', '1'] else None})
+        if b != ['1', '1']:
+            res.failures.append({'kind': 'oracle', 'entry': 'probe/nested_codec', 'profile': prof,
+                                 'rust_type': 'CodecRegion<DictionaryCodec, CodecRegion<DictionaryCodec>>',
+                                 'history': ['push "abc" x1000', 'merge_regions', 'push "abc"'], 'observed': b,
+                                 'what': 'the merged region refuses (panics on) the only string of its statistics' if b == ['[62]'] else f'observed {b}',
+                                 'known': known_by_class('nested-dictionary-codec', ctx.prop) if b == ['[62]'] else None})
     # a refused CELL of a row (known finding D13): the refusal must leave the columns region as it was
     if 'cols_cdc' in EXPR:
         abc, xyz = [97, 98, 99], [120, 121, 122]
